@@ -33,7 +33,12 @@ def _poles(rng, dt):
     for _ in range(n):
         if rng.random() < 0.5:
             w0 = float(np_exp_uniform(rng, 0.01, 1.9)) / dt
-            poles.append({"kind": "lorentz", "w0": w0, "gamma": float(rng.choice([0.0, rng.uniform(0, 0.5)])) / dt, "deps": float(rng.uniform(0.1, 4.0))})
+            gam = float(rng.choice([0.0, rng.uniform(0, 0.5)])) / dt
+            if rng.random() < 0.15:
+                # beyond the documented per-pole bound omega_0*dt < 2 (must be rejected), also heavily damped
+                w0 = float(rng.uniform(2.0, 2.6)) / dt
+                gam = float(rng.choice([0.0, rng.uniform(0.0, 8.0)])) / dt
+            poles.append({"kind": "lorentz", "w0": w0, "gamma": gam, "deps": float(rng.uniform(0.1, 4.0))})
         else:
             poles.append({"kind": "drude", "wp": float(np_exp_uniform(rng, 0.01, 1.5)) / dt, "gamma": float(rng.choice([0.0, rng.uniform(0, 0.5)])) / dt})
     return poles
@@ -57,6 +62,10 @@ def cases(tier, rng):
     # two fixed media from the design-phase probes that are accepted silently and are known to blow up
     out.append({"kind": "long", "seed": 1, "n_media": 1, "fixed": {"poles_dt": [{"kind": "drude", "wp": 0.5, "gamma": 0.0}], "eps_inf": 1.0, "cf": 0.99, "n": 6, "box": "periodic"}})
     out.append({"kind": "long", "seed": 2, "n_media": 1, "fixed": {"poles_dt": [{"kind": "lorentz", "w0": 1.0, "gamma": 0.0, "deps": 2.0}], "eps_inf": 1.0, "cf": 0.99, "n": 6, "box": "periodic"}})
+    # poles beyond the documented per-pole bound (omega_0*dt >= 2), under- and over-damped: placement must not accept
+    # them silently and then diverge
+    out.append({"kind": "long", "seed": 3, "n_media": 1, "fixed": {"poles_dt": [{"kind": "lorentz", "w0": 2.2, "gamma": 5.0, "deps": 0.5}], "eps_inf": 2.0, "cf": 0.9, "n": 6, "box": "pec"}})
+    out.append({"kind": "long", "seed": 4, "n_media": 1, "fixed": {"poles_dt": [{"kind": "lorentz", "w0": 2.05, "gamma": 0.01, "deps": 1.0}], "eps_inf": 1.0, "cf": 0.99, "n": 6, "box": "periodic"}})
     return out
 
 
@@ -256,6 +265,14 @@ def _long(seed, r, fixed=None):
     # growth by a factor 10 in energy within 1e4 steps needs |z| > 10**(1/2e4) = 1.000115; below 1e-6 the scan only
     # sees the round-off of the double root at z = 1 that every Drude pole has
     ref_unstable = zmax > 1.0 + 1e-6
+    # a coupled pole whose OWN recurrence z^2 - c1 z - c2 has a root outside the unit circle violates the documented
+    # acceptance rule (omega_0*dt < 2); that is never the known finding, which is about the coupling of poles that
+    # are individually fine
+    own_unstable = False
+    for a_, b_, c_ in zip(c1, c2, c3):
+        if c_ != 0.0 and float(np.abs(np.roots([1.0, -a_, -b_])).max()) > 1.0 + 1e-9:
+            own_unstable = True
+    desc["pole_own_recurrence_unstable"] = own_unstable
     desc["reference_max_root"] = zmax
     bad = ~np.isfinite(en) | (en > 10.0 * e0)
     ratio = float(np.nanmax(np.where(np.isfinite(en), en, np.inf)) / e0) if e0 > 0 else float("inf")
@@ -267,7 +284,7 @@ def _long(seed, r, fixed=None):
         r.violate(
             f"accepted passive medium grew: field energy exceeded 10x its initial value at step {k + 1}",
             {**desc, "first_bad_step": k + 1, "energy_ratio_there": float(en[k] / e0) if np.isfinite(en[k]) else "non-finite"},
-            mechanism="dispersive-medium-unstable-beyond-coupled-cfl" if ref_unstable else None,
+            mechanism="dispersive-medium-unstable-beyond-coupled-cfl" if (ref_unstable and not own_unstable) else None,
             sig=sig,
         )
     else:
